@@ -17,7 +17,8 @@ META = dict(
          "anything-but-panic} the statement permits. TLC enumerates every (shape, options, document) of the bounded "
          "catalogue (single fields of all 15 kinds x 19 option sets x 60 literals x pointer x typed/text source; "
          "pairs, embedded, slices, maps, nested structs, inherit, client->server round trips with strings that URLs / "
-         "queries / headers / JSON must escape, and two-call cases: same type and document twice, slices with "
+         "queries / headers / JSON must escape, round trips whose members carry range= (the four bracket combinations), "
+         "options=, optional, default= and `,string` with client values on / next to / off the bounds, and two-call cases: same type and document twice, slices with "
          "default=[..] included, the caller editing the first result in place in between), checks the sanity "
          "theorems of the relation on each and prints each case as JSON. The Go driver builds the struct type with "
          "reflect.StructOf, renders the document as JSON, YAML, map[string]any, conf documents with exact / "
@@ -39,7 +40,11 @@ META = dict(
          "into a string field, 0/1 into a bool. Not claimed: JSON = YAML for null / empty YAML values (the YAML "
          "bridge hands them on as the string \"\", inherited behaviour) and for 1e400 (a string in YAML); Duration "
          "and container fields in the httpc->httpx round trip (httpc renders them with fmt.Sprint / as nanoseconds, "
-         "which httpx does not read back); map keys that conf's key canonicalisation would rewrite; range bounds "
+         "which httpx does not read back); pointer members of a request struct other than unconstrained non-nil ones in "
+         "the json part (mapping.Marshal validates and renders the pointer itself: range= fails with 'unsupported type "
+         "*int', options= and `,string` see the address as text - inherited behaviour, observed, not generated); a "
+         "member outside its own options=/range= must make the round trip fail on either side, except an optional "
+         "member held at its zero value (the client may leave it out: equal struct, or send it: error); map keys that conf's key canonicalisation would rewrite; range bounds "
          "beyond small integers (the code compares in float64); optional=dep, embedded optional structs, arrays, "
          "TextUnmarshaler fields, multipart forms, conf.Load from files / env expansion; in the round trip '/', '.', "
          "'..', the empty string and control characters as path / header values (the part cannot carry them); in the "
@@ -59,7 +64,10 @@ FINISH = dict(rule="cases = complete TLC enumeration (one initial state per case
                    "(typed: UnmarshalJsonBytes, UnmarshalKey, UnmarshalYamlBytes, conf.LoadFromJsonBytes x 3 spellings, "
                    "conf.LoadFromYamlBytes; text: ParseForm, Parse, ParsePath, ParseHeaders; roundtrip: httpc.Do -> "
                    "router -> httpx.Parse after a config load; rtopt: the same with every member optional,default=<non-zero> "
-                   "and the client value zero / default / other; deep: all typed APIs and the three conf spellings on "
+                   "and the client value zero / default / other; rtcons: the same with a focus member (path, form, header, "
+                   "json in turn) over every numeric kind, string, bool x {plain, optional, default, range [..] (..) [..) (..], "
+                   "options, optional+range, optional+options, default+range, default+options, `,string`, pointer} x values "
+                   "on, next to and off the bounds while the other three members share one valid or outside value; deep: all typed APIs and the three conf spellings on "
                    "[][]T, []map[string]T, map[string][]T, [][]map[string]T, []*T with a null first element; history: conf.Load* first, then UnmarshalJsonBytes, UnmarshalKey, "
                    "UnmarshalYamlBytes, httpx.Parse with a JSON body on keys spelt snake_case / Upper-initial / mixed / "
                    "lowerCamel; twice: every typed API called twice with the same document, the first "
@@ -82,6 +90,9 @@ L = {"0": 1, "1": 2, "2": 3, "5": 4, "7": 5, "10": 6, "-1": 7, "127": 8, "128": 
 # "env_0" (env=V with V=0): on an int64 field it made processFieldWithEnvValue panic (its switch took every Int64
 # for a Duration; "0" is the one unit-less text time.ParseDuration accepts) - repaired in /repo e9e021b.
 L['""'] = 75   # the empty string: only offered where a plan lists it (NLITS stays 74 for "all literals")
+L["4"], L["6"] = 76, 77   # neighbours of the range bound 5 (offered by the round-trip constraint family)
+RTIDS = ["req", "opt", "def", "optdef", "rcc", "roo", "rco", "roc", "options", "optrcc", "optroc", "optopts",
+         "defrange", "defopts", "str"]
 COMBO = ["env_0", "er_m1", "er_1", "er_5", "er_7", "er_300", "eoc_1", "eoc_5", "eo_1", "eo_7", "defz", "defrout", "defoout"]
 NUMK = [k for k in ALLK if k not in ('"bool"', '"string"', '"duration"')]
 ESC = ("hello world", "100%", "a+b", "x&y=z?w#v", "nihao", 'say "hi"')
@@ -117,6 +128,20 @@ def plans(ctx):
     rto = lits("0", "5", "7", "true", "false", '""', "abc", "xyz")
     rtk = ["int8", "bool", "string"] if ctx.quick else ["int8", "int64", "bool", "string"]
     out.append(("rtopt", [job("rtopt", "rtopt", Q(rtk), Q(["req"]), rto, Q(rtk), Q(["req"]), rto)]))
+    # round trip with constrained members (rtcons): a focus member (each part in turn) over every numeric kind
+    # (the client's range validation has one branch per kind) x RTIDS x values on / next to / off the bounds
+    # 1, 5 (and 10 of default=5,range=[1:10]) and inside / outside options=; the other three members share one
+    # (kind, option set, value) of the reduced catalogue: valid, or outside (then the whole struct must fail)
+    rck = NUMK + ['"string"', '"bool"']
+    if ctx.quick:
+        rcl = lits("0", "1", "2", "4", "5", "6", "10", "1.5", "0.5", "5.0", "abc", "xyz", "nihao", '""', "true", "false")
+        rc2 = (Q(["int8", "string"]), Q(["req", "roc"]), lits("1", "5", "abc"))
+    else:
+        rcl = lits("0", "1", "2", "4", "5", "6", "7", "10", "-1", "127", "255", "300", "1.5", "0.5", "0.1", "1.0", "5.0", "1e2",
+                   "abc", "xyz", "nihao", "hello world", '""', "true", "false")
+        rc2 = (Q(["int8", "uint64", "string"]), Q(["req", "roc", "options", "optrcc"]), lits("0", "1", "5", "abc"))
+    out.append(("rtcons", [job("rtcons-%d" % i, "rtcons", Q(g), Q(RTIDS), rcl, *rc2)
+                           for i, g in enumerate(split_kinds(rck, 4 if ctx.quick else 7))]))
     # deep shapes.  "sx" ([]T given [5,{..}]: an element that is not an object) is defined in the generator but not
     # offered: fillSlice asserts ithValue.(map[string]any) unchecked and panics (also for YAML [null,{..}], where
     # null arrives as "") - reported with /tmp/fixes/C05-6.patch; add "sx" once that fix is in /repo.
@@ -237,6 +262,7 @@ def run(ctx):
         total[fam] = n
         ctx.samples += core.sample_of(cases, 1)
         shards = 1 if fam == "axioms" else 4 if fam in ("roundtrip", "rtopt") else 8
+        rtfam = fam in ("roundtrip", "rtopt", "rtcons")
         cnt, bad = ctx.replay(PKG, OVERLAY, RUN, path, label=fam, shards=shards, binp=binp, timeout=1200)
         # vacuity guard of the driver: each family must have seen accepted and rejected documents
         vals = sum(v for k, v in cnt.items() if k.startswith("call.") and k.endswith(".val"))
@@ -245,8 +271,20 @@ def run(ctx):
             if cnt.get("axioms.checked", 0) < 1:
                 raise core.Infra("the specification's numeric axioms were not checked")
             continue
-        if not bad and (vals == 0 or (errs == 0 and fam not in ("roundtrip", "rtopt"))):
+        if not bad and (vals == 0 or (errs == 0 and not rtfam)):
             raise core.Infra("family %s: vacuous replay (accepted=%d rejected=%d)" % (fam, vals, errs))
+        if rtfam:
+            rt = {k[len("rt.%s." % fam):]: v for k, v in cnt.items() if k.startswith("rt.%s." % fam)}
+            ctx.notes.setdefault("roundtrip_outcomes", {})[fam] = rt
+            if fam == "rtcons" and not bad:
+                # the constraint family must have seen, in every part, equal structs whose member sits on an included
+                # bound / is one of the options, and refused structs (by either side) for values outside
+                need = ["equal.on-included-bound." + p for p in ("path", "form", "header", "json")] + \
+                       ["equal.in-options." + p for p in ("path", "form", "header", "json")]
+                missing = [k for k in need if rt.get(k, 0) == 0]
+                refused = rt.get("outside.client-refused", 0) + rt.get("outside.server-refused", 0)
+                if missing or refused == 0:
+                    raise core.Infra("family rtcons: vacuous replay (missing %s, refused outside values=%d)" % (missing, refused))
     ctx.notes["cases_per_family"] = total
     # report the simplest member of each class of disagreement first (finish() shows the first per key)
     ctx.disagreements.sort(key=lambda d: (d["key"], len(d["msg"] or "")))
